@@ -589,6 +589,33 @@ var jgenOddNums = []string{
 	"-0", "0.5", "-0.5", "1.0", "0.0", "-0.0", "1e2", "1E2", "0e0", "0E1", "-0e1", "1e400", "-1E-2",
 	"1.5e3", "9007199254740992", "-9007199254740992", "9007199254740993", "123456789012345678901234567890",
 	"1e-400", "-0.0e0", "10.25", "-10.25", "0.000", "-1.5", "2E+3",
+	// integer literals far outside the safe range, including values congruent to small numbers
+	// modulo 2^64 / 2^63 / 2^32 (wrap-around in fixed-width parsers)
+	"18446744073709551616", "18446744073709551658", "-18446744073709551617", "36893488147419103232", "36893488147419103233",
+	"340282366920938463463374607431768211456", "340282366920938463463374607431768211457", "9223372036854775808", "-9223372036854775809",
+	"100000000000000000000", "-100000000000000000000", "18446744073709551615", "9223372036854775807",
+}
+
+// jgenBigInt draws an integer literal of 17-45 digits (always outside +/-(2^53-1)), or k*2^64+small.
+func jgenBigInt(t *rapid.T, label string) string {
+	if rapid.Bool().Draw(t, label+"_wrap") {
+		k := new(big.Int).Lsh(big.NewInt(int64(rapid.IntRange(1, 5).Draw(t, label+"_k"))), uint(rapid.SampledFrom([]int{64, 64, 65, 128}).Draw(t, label+"_sh")))
+		k.Add(k, big.NewInt(int64(rapid.IntRange(-1000, 1000).Draw(t, label+"_small"))))
+		if rapid.Bool().Draw(t, label+"_neg") {
+			k.Neg(k)
+		}
+		return k.String()
+	}
+	n := rapid.IntRange(17, 45).Draw(t, label+"_n")
+	var sb strings.Builder
+	if rapid.Bool().Draw(t, label+"_neg2") {
+		sb.WriteByte('-')
+	}
+	sb.WriteByte(byte('1' + rapid.IntRange(0, 8).Draw(t, label+"_d0")))
+	for i := 1; i < n; i++ {
+		sb.WriteByte(byte('0' + rapid.IntRange(0, 9).Draw(t, label+"_d")))
+	}
+	return sb.String()
 }
 
 type jgenOpts struct {
@@ -611,6 +638,9 @@ func jgenValue(t *rapid.T, o jgenOpts, depth int, label string) jv {
 				return jv{K: '#', S: fmt.Sprint(rapid.IntRange(-150, 150).Draw(t, label+"_i"))}
 			}
 			return jv{K: '#', S: rapid.SampledFrom(jgenInts).Draw(t, label+"_i")}
+		}
+		if rapid.IntRange(0, 4).Draw(t, label+"_big") == 0 {
+			return jv{K: '#', S: jgenBigInt(t, label+"_bi")}
 		}
 		return jv{K: '#', S: rapid.SampledFrom(jgenOddNums).Draw(t, label+"_n")}
 	case 'a':
